@@ -102,6 +102,15 @@ def renameOk (o : FOpts) (src : IState) : Bool :=
 def sameTree (a b : Tree) : Bool :=
   a.length == b.length && a.all fun e => b.any fun x => x.path == e.path && x.mode == e.mode && forgetOid x.blob == forgetOid e.blob
 
+/-- same paths with the same modes (blob contents not compared) -/
+def sameShape (a b : Tree) : Bool :=
+  a.length == b.length && a.all fun e => b.any fun x => x.path == e.path && x.mode == e.mode
+
+/-- a path whose version in this commit is targeted by the stripping options is nevertheless present in the image -/
+def targetedSurvives (o : FOpts) (src dst : Tree) : Bool :=
+  src.any fun e => shouldKeep o.path [e.path] && strippedBlob o e.blob &&
+    dst.any fun x => x.path == sanitize (rewritePath o.path.renames e.path)
+
 def dedupP : List PRef → List PRef → List PRef
   | [], _ => []
   | p :: r, seen => if seen.contains p then dedupP r seen else p :: dedupP r (p :: seen)
@@ -136,7 +145,12 @@ def checkCommit (x : OIn) (i : Nat) (c : ICommit) : List String :=
         if hasDupPaths want || !renameOk x.o x.src then [] -- rename makes two kept paths collide: outside the claim
         else if sameTree want d.tree then []
         else ["C01: tree of the image of " ++ tag ++ " is not the selected, renamed original tree (expected " ++
-              toString (want.map fun e => showBytes e.path) ++ ", got " ++ toString (d.tree.map fun e => showBytes e.path) ++ ")"]
+              toString (want.map fun e => showBytes e.path) ++ ", got " ++ toString (d.tree.map fun e => showBytes e.path) ++ ")"] ++
+             -- the same failure seen from the content rules and from the stripping options
+             (if sameShape want d.tree then
+                ["C05: a blob in the image of " ++ tag ++ " is not the original content rewritten by the content rules (paths and modes agree)"] else []) ++
+             (if targetedSurvives x.o c.tree d.tree then
+                ["C06: a path whose version in " ++ tag ++ " is targeted by --max-blob-size/--strip-blobs-with-ids is present in the image"] else [])
       match entry with
       | some _ =>
         -- kept: parents are the de-duplicated images, metadata per the options
